@@ -198,7 +198,7 @@ class FormatError(Exception):
 
 
 def _int(text, what):
-    t = text.strip()
+    t = text.lstrip(" ")  # right justified: blanks may only pad on the left
     if not t or any(c not in DIGITS for c in t):
         raise FormatError(f"{what}: {text!r} is not an unsigned integer")
     return int(t)
@@ -208,7 +208,7 @@ def _fixed(text, what, point):
     """Unsigned fixed-point field with the decimal point at column index `point`."""
     if text[point] != ".":
         raise FormatError(f"{what}: no decimal point at its column in {text!r}")
-    ip, fp = text[:point].strip(), text[point + 1:]
+    ip, fp = text[:point].lstrip(" "), text[point + 1:]  # blanks may only pad on the left
     if any(c not in DIGITS for c in ip + fp) or not fp:
         raise FormatError(f"{what}: {text!r}")
     return Fraction(int(ip or "0") * 10 ** len(fp) + int(fp), 10 ** len(fp))
@@ -233,6 +233,8 @@ def parse_lines(l1, l2, same_catalogue=True):
             raise FormatError(f"line {k} has {len(ln)} columns")
         if ln[0] != str(k):
             raise FormatError(f"line {k} is numbered {ln[0]!r}")
+        if any(not (" " <= ch <= "~") for ch in ln):
+            raise FormatError(f"line {k} holds a character that is not printable ASCII")
         for c in blanks:
             if ln[c - 1] != " ":
                 raise FormatError(f"line {k} column {c} is {ln[c - 1]!r}, not blank")
@@ -243,11 +245,17 @@ def parse_lines(l1, l2, same_catalogue=True):
     if _int(l2[2:7], "catalogue number (line 2)") != out["cat"] and same_catalogue:
         raise FormatError("catalogue numbers of the two lines differ")
     out["cls"] = l1[7]
+    if not ("A" <= l1[7] <= "Z"):
+        raise FormatError(f"classification {l1[7]!r}")
     des = l1[9:17]
-    if des.strip():
-        out["cospar"] = f"{year4(_int(des[0:2], 'launch year'))}-{des[2:].strip()}"
-    else:
+    if des == " " * 8:
         out["cospar"] = ""
+    else:
+        piece = des[5:].rstrip(" ")
+        if (any(c not in DIGITS for c in des[:5]) or not piece
+                or any(not ("A" <= c <= "Z") for c in piece)):
+            raise FormatError(f"international designator {des!r}")
+        out["cospar"] = f"{year4(int(des[0:2]))}-{des[2:5]}{piece}"
     eyy = _int(l1[18:20], "epoch year")
     day = _fixed(l1[20:32], "epoch day", 3)
     mjd0 = mjd_of_civil(year4(eyy), 1, 1)
